@@ -1557,6 +1557,11 @@ impl Hist {
         if fp.fwd[0].count.is_err() || fp.steps.is_err() || fp.params[0].is_err() {
             vfail!("fresh-handle-rejected", "handle just returned by op({text:?}) is rejected: apply {:?}, steps {:?}, params {:?}", fp.fwd[0].count, fp.steps, fp.params[0]);
         }
+        for (kind, fwd, r) in apply_to_empty_sets(&self.ctxs[ci].any, h)? {
+            if r != Ok(0) {
+                vfail!("empty-set-on-valid-handle", "op({text:?}): apply({}) of the fresh handle to an EMPTY {kind} gives {r:?}, expected Ok(0)", if fwd { "Fwd" } else { "Inv" });
+            }
+        }
         let first_name = match &def.steps[0] {
             Step::Call { name, .. } => Some(name.clone()),
             _ => None,
@@ -1659,8 +1664,42 @@ impl Hist {
     }
 }
 
+/// `apply(h, dir, EMPTY set)` for every kind of coordinate container, both directions
+fn apply_to_empty_sets(any: &AnyCtx, h: OpHandle) -> Result<Vec<(&'static str, bool, Result<usize, String>)>, Failure> {
+    let mut out = vec![];
+    for fwd in [true, false] {
+        let mut run = |kind: &'static str, set: &mut dyn CoordinateSet| -> Result<(), Failure> {
+            let r = guard(|| any.apply(h, if fwd { Fwd } else { Inv }, set)).map_err(|p| Failure { key: format!("panic-apply@{}", p.sig()), msg: format!("apply to an empty {kind} panics: {} at {}:{}", p.msg, p.file, p.line) })?;
+            out.push((kind, fwd, r.map_err(|e| format!("{e:?}"))));
+            Ok(())
+        };
+        run("Vec<Coor4D>", &mut Vec::<Coor4D>::new())?;
+        let mut backing: [Coor4D; 0] = [];
+        let mut slice: &mut [Coor4D] = &mut backing[..];
+        run("&mut [Coor4D]", &mut slice)?;
+        run("[Coor4D; 0]", &mut ([] as [Coor4D; 0]))?;
+        run("Vec<Coor3D>", &mut Vec::<Coor3D>::new())?;
+        run("Vec<Coor2D>", &mut Vec::<Coor2D>::new())?;
+        run("Vec<Coor32>", &mut Vec::<Coor32>::new())?;
+        run("[Coor2D; 0]", &mut ([] as [Coor2D; 0]))?;
+        run("(Vec<Coor2D>, h, t)", &mut (Vec::<Coor2D>::new(), 100., 2020.))?;
+        run("(Vec<Coor3D>, t)", &mut (Vec::<Coor3D>::new(), 2020.))?;
+    }
+    Ok(out)
+}
+
 /// `h` was not issued by `any`: apply, steps and params must all fail, data must stay untouched
 fn must_reject(any: &AnyCtx, which: &str, h: OpHandle, what: &str) -> CaseResult {
+    // an unknown handle is an error whatever the operands - also when there are none
+    for (kind, fwd, r) in apply_to_empty_sets(any, h)? {
+        if let Ok(n) = r {
+            vfail!(
+                "unknown-handle-accepted-on-empty-set",
+                "{what} {h:?} used on {which}: apply({}) to an EMPTY {kind} returns Ok({n}) instead of the unknown-handle error",
+                if fwd { "Fwd" } else { "Inv" }
+            );
+        }
+    }
     let mut data = probes();
     let before = bits(&data);
     let a = guard(|| any.apply(h, Fwd, &mut data)).map_err(|p| Failure { key: format!("panic-apply@{}", p.sig()), msg: format!("apply with {what} panics: {}", p.msg) })?;
@@ -2252,6 +2291,7 @@ const SIDE_DEFS: [&str; 6] = [
 // =====================================================================================
 
 const BUILTIN_NAMES: [&str; 3] = ["addone", "helmert", "noop"];
+const DERIVED_NAMES: [&str; 6] = ["reg:a:x", "solo:one:x", "crlf:b:b", "x:reg:a", "reg::a", "ureg:v:x"];
 const ALIAS_NAMES: [&str; 4] = ["longlat", "lonlat", "latlon", "latlong"];
 const PLAIN_NAMES: [&str; 3] = ["myop", "foo", "bar_2"];
 const COLON_NAMES: [&str; 5] = ["my:mac", "x:y", "p:q:r", "geo:in", "gis:out"];
@@ -2273,6 +2313,8 @@ fn pools() -> &'static Pools {
         call.push("nosuchop".into());
         call.extend(rep(&COLON_NAMES, 3));
         call.extend(files.iter().cloned());
+        // unknown names derived from known items (several colons): unknown unless registered at run time
+        call.extend(rep(&DERIVED_NAMES, 1));
         let mut regop = rep(&BUILTIN_NAMES, 3);
         regop.extend(rep(&ALIAS_NAMES, 1));
         regop.extend(rep(&PLAIN_NAMES, 3));
@@ -2280,6 +2322,7 @@ fn pools() -> &'static Pools {
         let mut regres = rep(&COLON_NAMES, 4);
         regres.extend(files.iter().cloned());
         regres.extend(rep(&["addone", "foo"], 1));
+        regres.extend(rep(&DERIVED_NAMES[..3], 1));
         Pools { call, regop, regres }
     })
 }
@@ -2380,6 +2423,11 @@ fn file_item_cases() -> Vec<History> {
                 Cmd::RegOp { ctx: 2, name: "myop".into(), ctor: 4 },
                 Cmd::Op { ctx: 2, def: c(Arg::None, false), layout: 0 },
                 Cmd::Burst { threads: 2, rounds: 2, seed: 7, side: true },
+                Cmd::Foreign { h: 1, ctx: 0 },
+                Cmd::Foreign { h: 2, ctx: 1 },
+                Cmd::NewCtx { slot: 1, plain: true, with_new: true },
+                Cmd::Foreign { h: 0, ctx: 1 },
+                Cmd::Foreign { h: 0, ctx: 0 },
             ],
         });
     }
@@ -2646,6 +2694,84 @@ fn check_builtin(case: &BuiltinCase, rec: &mut Rec) -> CaseResult {
 }
 
 // =====================================================================================
+// 7c. Unknown names derived from known file items must stay unknown
+// =====================================================================================
+
+#[derive(Clone, Debug, Serialize, Deserialize)]
+struct DerivedCase {
+    item: String,   // a name of the generated resource tree, "prefix:suffix"
+    derivation: u8, // see `derive_name`
+    plain: bool,
+    form: u8, // 0 stand-alone, 1 pipeline step, 2 macro body, 3 registered at run time under the derived name
+}
+
+const DERIVATIONS: [&str; 6] = ["item:x", "x:item", "prefix:x:suffix", "prefix::suffix", "item:suffix", "item: (trailing colon)"];
+
+fn derive_name(item: &str, derivation: u8) -> String {
+    let (prefix, suffix) = item.split_once(':').unwrap_or((item, ""));
+    match derivation % 6 {
+        0 => format!("{item}:x"),
+        1 => format!("x:{item}"),
+        2 => format!("{prefix}:x:{suffix}"),
+        3 => format!("{prefix}::{suffix}"),
+        4 => format!("{item}:{suffix}"),
+        _ => format!("{item}:"),
+    }
+}
+
+fn check_derived(case: &DerivedCase, rec: &mut Rec) -> CaseResult {
+    let name = derive_name(&case.item, case.derivation);
+    let label = DERIVATIONS[case.derivation as usize % 6];
+    let kind = if case.plain { "Plain" } else { "Minimal" };
+    let form = ["stand-alone", "pipeline-step", "macro-body", "registered-at-run-time"][case.form as usize % 4];
+    let mut ctx = AnyCtx::make(case.plain, true);
+    let def = match case.form % 4 {
+        0 | 3 => name.clone(),
+        1 => format!("addone | {name} | helmert x=2"),
+        _ => {
+            ctx.register_resource("dn:mac", &name);
+            "dn:mac".to_string()
+        }
+    };
+    if case.form % 4 == 3 {
+        ctx.register_resource(&name, "helmert x=9");
+    }
+    let r = guard(|| ctx.op(&def)).map_err(|p| Failure { key: format!("panic-op@{}", p.sig()), msg: format!("op({def:?}) panics: {} at {}:{}", p.msg, p.file, p.line) })?;
+    if case.derivation % 6 == 5 {
+        // the tokenizer strips ':' from both ends of a definition (continuation line markers), so a
+        // trailing colon is not part of the name by design: outcome not compared
+        rec.count("excluded_unspecified_trailing_colon", 1);
+        rec.class("trailing-colon-not-compared");
+        return Ok(());
+    }
+    let pr = probes();
+    match (case.form % 4, r) {
+        (3, Ok(h)) => {
+            // a run-time registration under exactly that name is found first, however many colons
+            let node = Node::Leaf { prim: Prim::Helm(9), inverted: false };
+            let lib = singletons(&ctx, h, true, &pr[..3])?;
+            let (m, _) = model_singletons(&node, true, &pr[..3]);
+            if lib != m {
+                vfail!("runtime-macro-with-several-colons-misresolved", "{kind}: register_resource({name:?}, \"helmert x=9\"); op({def:?}) gives {} instead of {}", show_outs(&lib), show_outs(&m));
+            }
+            rec.class("registered-derived-name-found");
+        }
+        (3, Err(e)) => vfail!("runtime-macro-with-several-colons-not-found", "{kind}: register_resource({name:?}, \"helmert x=9\"); op({def:?}) fails: {e:?}"),
+        (_, Ok(h)) => {
+            let lib = singletons(&ctx, h, true, &pr[..1])?;
+            vfail!(
+                format!("unknown-derived-name-instantiated/{label}"),
+                "{kind}: op({def:?}) ({form}) succeeds although no operator or macro called '{name}' exists (derived from the file item '{}' as {label}); Fwd of {:?} gives {}; steps {:?}",
+                case.item, pr[0], show_outs(&lib), ctx.steps(h)
+            );
+        }
+        (_, Err(_)) => rec.class(&format!("unknown-as-expected:{label}")),
+    }
+    rec.nontrivial(&(name, case.plain, case.form));
+    Ok(())
+}
+
+// =====================================================================================
 // 8. main
 // =====================================================================================
 
@@ -2685,6 +2811,17 @@ fn main() {
         nn * 6,
         move |i| BuiltinCase { name: names[i % nn].clone(), plain: (i / nn) % 2 == 1, form: (i / (2 * nn)) as u8 },
         check_builtin,
+    );
+
+    // unknown names derived from every file item
+    let item_names: Vec<String> = world().items.keys().cloned().collect();
+    let ni = item_names.len();
+    run.enumerate(
+        "derived-unknown-names",
+        "EVERY item of the generated resource tree (all register layouts) x 6 derivations (item:x, x:item, prefix:x:suffix, prefix::suffix, item:suffix, trailing colon) x {Minimal, Plain} x {stand-alone, pipeline step, macro body: must be an error; registered at run time under exactly that name: must be found}; the trailing colon form is executed but not compared (the tokenizer strips ':' from the ends of a definition)",
+        ni * 6 * 2 * 4,
+        move |i| DerivedCase { item: item_names[i % ni].clone(), derivation: ((i / ni) % 6) as u8, plain: (i / (6 * ni)) % 2 == 1, form: (i / (12 * ni)) as u8 },
+        check_derived,
     );
 
     let general = Profile { grid_w: 2, w: [4, 12, 14, 10, 24, 8, 5, 4, 3, 2, 3, 14, 2], max_len: if run.is_thorough() { 100 } else { 40 } };
